@@ -36,6 +36,7 @@ Scenario(f, k) ==
   IN [id |-> <<fs, f, k>>, steps |-> << [op |-> "file_open", state |-> fs, flags |-> f, writes |-> k, old |-> content,
                                          expect |-> IF refused THEN "refused" ELSE "opened",
                                          existsAfter |-> IF refused THEN fs = "file" ELSE TRUE,
+                                         parentAfter |-> (fs # "noparent") \/ ~refused,           \* a refused open leaves "noparent" as it is: the directory is not created either
                                          unspecified |-> ~refused /\ m = "inplace",
                                          final |-> IF refused THEN content ELSE base \o Chunks(k)] >>]
 Open(f) == /\ mode = "closed" /\ nwrites = 0
